@@ -9,7 +9,7 @@ POSITIONS = ('top', 'array', 'table')
 
 def value_tasks(tier):
     out = [('scalars',), ('keys',), ('deep',), ('onehot',), ('mixed',)]
-    max_nodes = 7 if tier == 'thorough' else 5
+    max_nodes = 8 if tier == 'thorough' else 5
     out += [('trees', n) for n in range(2, max_nodes + 1)]
     max_chain = 14 if tier == 'thorough' else 10
     out += [('chains', k) for k in range(1, max_chain + 1)]
